@@ -837,6 +837,95 @@ theorem dropRow_secondary_uses_neighbour_norm :
 
 end Slu.IluDrop
 
+/-! ## The modelled rule as an instance of the drop oracle of `iluFactor` -/
+namespace Slu.Ilu
+open Slu.IluDrop Slu.LU
+
+/-- what the caller `[sd]gsitrf` decides, and the model of the factorization as a whole does not contain (supernode
+partition, symbolic structure, quota formula, dynamic tolerance): after column `j`, drop rows of the supernode
+`first..last` (`last ≤ j`) whose rows below the diagonal block are `below` (storage order), with these arguments -/
+structure DropCall where
+  first : Nat
+  last : Nat
+  below : List Nat
+  rule : Rule
+  nrm : Nrm
+  dropTol : Rat
+  quota : Int
+  alpha : Rat
+  fillTol : Rat
+
+/-- the supernode `first..last` of the specification-level state, as the `m x n` block `ilu_?drop_row` works on: the
+rows of the diagonal block are the pivot rows (strict lower part: L, diagonal and above: U, as SuperLU stores a
+supernode), then the rows `below` with their L entries -/
+def blockOf (st : IluSt Rat) (c : DropCall) : Array (Array Rat) × Array Int :=
+  let n := c.last + 1 - c.first
+  let diagRows := (List.range n).map fun k => st.piv.getD (c.first + k) 0
+  let lrow (i : Nat) : Array Rat := (Array.range n).map fun t => (st.L.getD (c.first + t) #[]).get i
+  let drow (k : Nat) : Array Rat := (Array.range n).map fun t =>
+    if t < k then (st.L.getD (c.first + t) #[]).get (st.piv.getD (c.first + k) 0) else (st.U.getD (c.first + t) #[]).getD (c.first + k) 0
+  (((List.range n).map drow ++ c.below.map lrow).toArray, (List.map Int.ofNat (diagRows ++ c.below)).toArray)
+
+/-- `ilu_?drop_row` (the model `dropBlock`, exact arithmetic) as a `DropOracle`: the L entries it zeroes are the entries
+of the dropped rows in the columns of the supernode, the diagonal factors are its MILU compensation
+(`diagComp .. 1 t = 1 + t*omega`); U entries are not touched by this routine -/
+def dropRowOracle (nrm2 : Array Rat → Rat) (milu : Milu) (call : IluSt Rat → Nat → Option DropCall) : DropOracle Rat :=
+  { dropU := fun _ _ _ _ _ => false
+    dropL := fun st j t i =>
+      match call st j with
+      | none => false
+      | some c =>
+        let b := blockOf st c
+        let o := dropBlock (opsRat nrm2) c.rule milu c.nrm c.dropTol c.quota c.alpha c.fillTol b.1.size (c.last + 1 - c.first) b.1 b.2
+        decide (c.first ≤ t ∧ t ≤ c.last) && (o.1.trace.map fun e => b.2[e.1]!).contains (i : Int)
+    diagMul := fun st j k =>
+      match call st j with
+      | none => 1
+      | some c =>
+        let b := blockOf st c
+        let o := dropBlock (opsRat nrm2) c.rule milu c.nrm c.dropTol c.quota c.alpha c.fillTol b.1.size (c.last + 1 - c.first) b.1 b.2
+        if c.first ≤ k ∧ k ≤ c.last ∧ o.1.r ≠ 0 ∧ milu ≠ .silu then
+          let t := (o.1.rows[b.1.size - 1]!)[k - c.first]!
+          if t = 0 then 1 else ((opsRat nrm2).diagComp milu c.alpha c.fillTol 1 t).1
+        else 1 }
+
+/-- **C15 (the whole-factorization identity for the MODELLED row-dropping rule).** `iluFactor_identity_with_error`
+instantiated with `dropRowOracle`: whatever supernodes, structures, quotas and tolerances the caller passes
+(`call`), with the rows chosen by the model of `ilu_?drop_row` (norms, both loops, qselect / interpolation, the
+neighbour-norm behaviour included) and its diagonal compensation, `L̃·Ũ = Pr·A·Pc + E` entrywise. -/
+theorem iluFactor_identity_dropRow (F : Flavour Rat Rat) (P : IluParams Rat Rat) (nrm2 : Array Rat → Rat)
+    (call : IluSt Rat → Nat → Option DropCall) (hcol : ∀ j, (P.col j).size = P.m) (b : Bool)
+    (h : (iluFactor F P (dropRowOracle nrm2 P.milu call) b).fail = 0) (j : Nat) (hj : j < P.n) (i : Nat) (hi : i < P.m) :
+    ((List.range (j + 1)).map fun k =>
+        ((iluFactor F P (dropRowOracle nrm2 P.milu call) b).U.getD j #[]).getD k 0 *
+          ((iluFactor F P (dropRowOracle nrm2 P.milu call) b).L.getD k #[]).get i).sum =
+      (P.col j).get i + ((iluFactor F P (dropRowOracle nrm2 P.milu call) b).E.getD j #[]).get i :=
+  iluFactor_identity_with_error magLaws_rat F P (dropRowOracle nrm2 P.milu call) hcol b h j hj i hi
+
+/-- the rows the oracle drops are rows BELOW the diagonal block of the supernode, and every one of them met the test of
+the loop that dropped it (`dropRow_diag_block_kept`, `dropRow_threshold` applied to the block of the state) -/
+theorem dropRowOracle_rows (nrm2 : Array Rat → Rat) (milu : Milu) (c : DropCall) (st : IluSt Rat)
+    (hn : c.first ≤ c.last) (hb : c.below ≠ []) :
+    let b := blockOf st c
+    let o := dropBlock (opsRat nrm2) c.rule milu c.nrm c.dropTol c.quota c.alpha c.fillTol b.1.size (c.last + 1 - c.first) b.1 b.2
+    (∀ e ∈ o.1.trace, c.last + 1 - c.first ≤ e.1) ∧
+    ∃ tol, ∀ e ∈ o.1.trace, (e.2 = (opsRat nrm2).rowNorm c.nrm b.1[e.1]! ∧ e.2 < c.dropTol) ∨ e.2 ≤ tol := by
+  intro b o
+  have hsz : b.1.size = (c.last + 1 - c.first) + c.below.length := by simp [b, blockOf]
+  have hsz2 : b.2.size = b.1.size := by
+    rw [hsz]; simp only [b, blockOf, List.size_toArray, List.length_map, List.length_append, List.length_range]
+  have hlen : 0 < c.below.length := List.length_pos_of_ne_nil hb
+  have hinv := dropBlock_inv (opsRat nrm2) c.rule milu c.nrm c.dropTol c.quota c.alpha c.fillTol b.1.size (c.last + 1 - c.first) b.1 b.2
+    (by omega) (by omega) rfl hsz2
+  refine ⟨fun e he => (trace_not_kept hinv.1 e he).1, ?_⟩
+  obtain ⟨tol, ht⟩ := hinv.2
+  refine ⟨tol, fun e he => ?_⟩
+  rcases ht e he with h | h
+  · exact Or.inl ⟨h.1, by simpa [opsRat] using h.2⟩
+  · exact Or.inr (by simpa [opsRat] using h)
+
+end Slu.Ilu
+
 /-! ## `[sd]qselect` (Slu/Model/QSelect.lean) -/
 namespace Slu.QSelect
 
